@@ -51,7 +51,10 @@ func (sqp *sortedQueryPeerset) Less(i, j int) bool
   ensures result == (bigval(sqp.all[i].distance) < bigval(sqp.all[j].distance))
 
 func NewQueryPeerset(key string) *QueryPeerset
+  modifies nothing
   ensures result != nil && len(result.all) == 0 && !result.sorted
+  ensures allT(p, peer.ID, !result.$has[p])
+  ghost at return: result.$has = mapcomp(x, peer.ID, false)
 
 func (qp *QueryPeerset) find(p peer.ID) int
   requires wfIdx(qp) && wfHas(qp)
